@@ -77,7 +77,7 @@ def header_bytes(h, rng=None):
 # ----------------------------------------------------------------------------- the real server
 def _setup(workdir):
     """Real Site over a directory of static files; pull producers are driven by a Cooperator on a
-    task.Clock (the harness's stand-in for the reactor loop)."""
+    bounded FIFO of scheduled calls (the harness's stand-in for the reactor loop)."""
     from twisted.internet import _producer_helpers, task
     from twisted.logger import globalLogBeginner
     from twisted.web import server, static
@@ -88,12 +88,26 @@ def _setup(workdir):
         globalLogBeginner.beginLoggingTo([lambda e: None], redirectStandardIO=False, discardBuffer=True)
     except Exception:
         pass
-    clock = task.Clock()
-    coop = task.Cooperator(scheduler=lambda f: clock.callLater(0, f), terminationPredicateFactory=lambda: (lambda: True))
+    # the harness's stand-in for the reactor loop: a FIFO of scheduled calls, pumped one call at a time and bounded
+    # (a producer that never finishes must not hang the check: it is an observation, `done = False`)
+    queue = []
+
+    class _Call:
+        def __init__(self, f):
+            self.f, self.cancelled = f, False
+
+        def cancel(self):
+            self.cancelled = True
+
+    def schedule(f):
+        c = _Call(f)
+        queue.append(c)
+        return c
+    coop = task.Cooperator(scheduler=schedule, terminationPredicateFactory=lambda: (lambda: True))
     _producer_helpers.cooperate = coop.cooperate
     d = os.path.join(workdir, "c25-files")
     os.makedirs(d, exist_ok=True)
-    _state.update(dir=d, clock=clock, site=server.Site(static.File(d)), files=set(), pat={})
+    _state.update(dir=d, queue=queue, site=server.Site(static.File(d)), files=set(), pat={})
     return _state
 
 
@@ -225,20 +239,23 @@ def run_case(cfg, workdir, rng=None, raw_header=None):
     ch = st["site"].buildProtocol(address.IPv4Address("TCP", "10.0.0.1", 40000))
     tr = StringTransport()
     exc = ""
-    clock = st["clock"]
+    queue = st["queue"]
+    del queue[:]
     try:
         ch.makeConnection(tr)
         ch.dataReceived(msg)
         n = 0
-        while clock.getDelayedCalls() and n < 200000:
-            clock.advance(0)
+        while queue and n < 5000:
+            c = queue.pop(0)
+            if not c.cancelled:
+                c.f()
             n += 1
     except Exception as e:      # an exception escaping into the "reactor" is not a response
         exc = type(e).__name__
-    for c in clock.getDelayedCalls():
-        c.cancel()
+    hung = bool(queue)
+    del queue[:]
     raw = tr.value()
-    done = bool(tr.disconnecting) and not exc
+    done = bool(tr.disconnecting) and not exc and not hung
     try:
         ch.connectionLost(__import__("twisted.python.failure", fromlist=["Failure"]).Failure(Exception("done")))
     except Exception:
